@@ -146,7 +146,7 @@ PROPS = {
     },
     "C12": {
         "modules": ["PgBifrost.Props.C12"],
-        "components": ["s3"],
+        "components": ["s3", "plumbing"],
         "required_theorems": ["PgBifrost.Props.C12.s3_key_format", "PgBifrost.Props.C12.s3_object_key_injective",
                               "PgBifrost.Props.C12.s3_body_lines", "PgBifrost.Props.C12.s3_retry_from_zero",
                               "PgBifrost.Props.C12.s3_no_report_on_giveup", "PgBifrost.Props.C12.s3_key_as_in_source", "PgBifrost.Props.C12.s3_worker_as_in_source"],
